@@ -25,7 +25,7 @@ pub fn test_case(c: &Case) -> (Result<CaseInfo, Fail>, Obs) {
     let Some(mm) = &c.plan.mismatch else { return (Ok(CaseInfo::default()), obs) };
     let leader = c.cfg.leader;
     let (kind, must_fail): (&str, Vec<usize>) = match mm {
-        Mismatch::Program { party } => ("program", vec![leader, *party]),
+        Mismatch::Program { party, kind } => (["program(comment appended)", "program(operator changed)", "program(line break moved)"][*kind as usize % 3], vec![leader, *party]),
         Mismatch::Leader { party, .. } => ("leader", vec![leader, *party]),
         Mismatch::IllTyped { party } => ("ill-typed", vec![*party]),
     };
@@ -86,7 +86,9 @@ pub fn units(tier: Tier, seed: u64) -> Vec<Unit> {
             let leader = cfg.leader;
             for party in 0..n {
                 if party != leader {
-                    v.push(Unit { cfg: cfg.clone(), mismatch: Mismatch::Program { party } });
+                    for kind in 0..3u8 {
+                        v.push(Unit { cfg: cfg.clone(), mismatch: Mismatch::Program { party, kind } });
+                    }
                     if n == 3 {
                         let other = (0..n).find(|p| *p != leader && *p != party).unwrap();
                         v.push(Unit { cfg: cfg.clone(), mismatch: Mismatch::Leader { party, claims: other } });
@@ -104,7 +106,7 @@ pub fn run(tier: Tier, seed: u64) -> i32 {
         return run_worker(units(tier, seed), k, of, run_unit);
     }
     let ctx = Ctx::new("C16", tier, seed, "exploration");
-    ctx.set_rule("exhaustive DFS over arrival orders of the schedule calls and delivery orders of the coordination RPCs (<= 400 paths per unit) for: program-text mismatch at each follower (n=2,3), leader-index mismatch at a follower naming another follower (n=3), ill-typed program at each party; oracle: the schedule calls of the leader and of the mismatching follower (resp. of the party with the ill-typed program) return an error, no destination is sent a successful result, zero MPC messages are issued by the in-process client, no state machine panics; other followers may linger; distinct by hash of (configuration, mismatch, path)");
+    ctx.set_rule("exhaustive DFS over arrival orders of the schedule calls and delivery orders of the coordination RPCs (<= 400 paths per unit) for: program-text mismatch at each follower (n=2,3; three kinds of difference: appended comment, changed operator, same characters with a line break moved into a comment), leader-index mismatch at a follower naming another follower (n=3), ill-typed program at each party; oracle: the schedule calls of the leader and of the mismatching follower (resp. of the party with the ill-typed program) return an error, no destination is sent a successful result, zero MPC messages are issued by the in-process client, no state machine panics; other followers may linger; distinct by hash of (configuration, mismatch, path)");
     let n_units = units(tier, seed).len();
     ctx.extra("work_units", json!(n_units));
     run_parent(&ctx, "C16", n_units);
